@@ -146,7 +146,7 @@ META = {
         rule=("Random pairs: noise content of length 0..24k (quick) / 40k (thorough) frames (crossing the 16384-frame ring), slices, start positions, loop regions (incl. to the end), rates {1, 0, 0.1..4}, volume/panning, fade-in, delayed start, device/sound rate pairs, "
               "decoder packet plans (1, fixed 1..4096, variable, 4096/1/333) and seek granularities {1,8,64,1000,4096}; chunk sizes 1..512; random histories of set_volume/set_panning/set_playback_rate/pause/resume/resume_at(delayed)/stop with random tweens applied to both handles (no seeks). "
               "Before every callback the harness waits until the decoder has filled its ring or ended (two fresh dec.wait hook hits). Compared after every callback: every output frame (1e-6 x scale), state(), and until Stopped position() within one frame along the transport path (cyclic in a loop). "
-              "A case is distinct and non-trivial when (packet plan class, seek granularity, loop?, slice?, rate class, longer-than-ring?) is new and >= 1 non-silent frame was compared. A third of the sounds longer than the ring run at rate 1 with callbacks of 381 or 5461 frames (divisors of 16383), so that a callback begins exactly when the 16384-slot ring wraps. The streaming side receives its slice directly, or through a second .slice() replacing an earlier one (open-ended when the slice ends at the end of the data)."),
+              "A case is distinct and non-trivial when (packet plan class, seek granularity, loop?, slice?, rate class, longer-than-ring?) is new and >= 1 non-silent frame was compared. A third of the sounds longer than the ring run at rate 1 with callbacks of 381 or 5461 frames (divisors of 16383), so that a callback begins exactly when the 16384-slot ring wraps. The streaming side receives its slice directly, or through a second .slice() replacing an earlier one (open-ended when the slice ends at the end of the data). One pair in eight is file-backed: both sounds read the bytes of the same 16-bit WAV (the library's own decoder on the streaming side, whose seeks land on packet boundaries)."),
         domain="valid slices and loop regions (start<end<=len); non-negative rates; no seek commands (per the property)",
         assumptions=["a pair whose decoder does not reach ring-full/end within 5 s wall is inconclusive (counted, never a violation)", "ScriptedDecoder implements the public Decoder trait; seeks land on multiples of the granularity at or before the request"],
         quick=[rel(40)],
